@@ -373,27 +373,29 @@ func runSelection(rt *rapid.T, a *adapter, monitored bool) {
 		cands = append(cands, f)
 	}
 
-	// ---- prefix manipulations
-	if a.hasPrefix && len(s.entries) >= 2 {
+	// ---- prefix manipulations of one drawn entry's output
+	if a.hasPrefix {
 		i := rapid.SampledFrom(s.entries).Draw(rt, "manip_source")
-		var others []*entry
-		for _, e := range s.entries {
-			if e != i {
-				others = append(others, e)
+		body := outs[i.idx][len(i.prefix()):]
+		for _, j := range s.entries {
+			if j != i && len(j.prefix()) > 0 {
+				cands = append(cands, &candidate{kind: fmt.Sprintf("output of #%d under the prefix of #%d", i.idx, j.idx), out: slices.Concat(j.prefix(), body), in: in, from: i})
 			}
 		}
-		j := rapid.SampledFrom(others).Draw(rt, "manip_other")
-		body := outs[i.idx][len(i.prefix()):]
-		kind := rapid.SampledFrom([]string{"reprefix", "strip", "tink<->crunchy"}).Draw(rt, "manip_kind")
-		switch {
-		case kind == "reprefix" && len(j.prefix()) > 0:
-			cands = append(cands, &candidate{kind: fmt.Sprintf("output of #%d under the prefix of #%d", i.idx, j.idx), out: slices.Concat(j.prefix(), body), in: in, from: i})
-		case kind == "strip" && len(i.prefix()) > 0:
+		if len(i.prefix()) > 0 {
 			cands = append(cands, &candidate{kind: fmt.Sprintf("output of #%d without its prefix", i.idx), out: body, in: in, from: i})
-		case kind == "tink<->crunchy" && len(i.prefix()) > 0:
 			o := append([]byte{}, outs[i.idx]...)
 			o[0] ^= 1
 			cands = append(cands, &candidate{kind: fmt.Sprintf("output of #%d with the other prefix start byte", i.idx), out: o, in: in, from: i})
+			pos := rapid.IntRange(1, 4).Draw(rt, "manip_id_byte")
+			o = append([]byte{}, outs[i.idx]...)
+			o[pos] ^= byte(rapid.IntRange(1, 255).Draw(rt, "manip_id_xor"))
+			cands = append(cands, &candidate{kind: fmt.Sprintf("output of #%d with ID byte %d of the prefix changed", i.idx, pos), out: o, in: in, from: i})
+		} else {
+			// a prefix-less output behind a Tink / Crunchy prefix with the entry's own keyset ID
+			for _, v := range []string{tk.Tink, tk.Crunchy} {
+				cands = append(cands, &candidate{kind: fmt.Sprintf("prefix-less output of #%d behind a %s prefix with its keyset ID", i.idx, v), out: slices.Concat(tk.Prefix(v, i.id), body), in: in, from: i})
+			}
 		}
 	}
 	if collision != nil {
